@@ -246,6 +246,23 @@ theorem checkAll_ok {cs all : List Core} (h : checkAll all cs = .ok ()) :
       · exact hd
       · exact ih h c hc
 
+theorem mem_insCore (c x : Core) (l : List Core) : x ∈ insCore c l ↔ x = c ∨ x ∈ l := by
+  induction l with
+  | nil => simp [insCore]
+  | cons d ds ih =>
+    simp only [insCore]
+    split
+    · simp
+    · simp only [List.mem_cons, ih]
+      constructor
+      · rintro (h | h | h) <;> simp [h]
+      · rintro (h | h | h) <;> simp [h]
+
+theorem mem_sortCores (x : Core) (l : List Core) : x ∈ sortCores l ↔ x ∈ l := by
+  induction l with
+  | nil => simp [sortCores]
+  | cons c cs ih => simp [sortCores, mem_insCore, ih]
+
 /-! ## P1 — link soundness over every history -/
 
 /-- **link_sound.** After any history of edits, checks, builds, links and single-field
@@ -286,7 +303,7 @@ theorem link_sound (hinj : Function.Injective H) (imports : Pkg → List Pkg) (o
           have hsync := (hI q c hq).2 hval d v hseen
           have hv := (validate_iff c).1 hval
           have hdeps : (d, H v) ∈ c.deps := by rw [hv.2.2.2.2]; exact hsync
-          obtain ⟨cd, hfind, hhash⟩ := checkDeps_ok (checkAll_ok hk c hc) d (H v) hdeps
+          obtain ⟨cd, hfind, hhash⟩ := checkDeps_ok (checkAll_ok hk c ((mem_sortCores c cs').2 hc)) d (H v) hdeps
           have hcd : cd ∈ cs' := List.mem_of_find?_eq_some hfind
           obtain ⟨hvald, _⟩ := readCores_ok hr cd hcd
           have hvd := (validate_iff cd).1 hvald
